@@ -5,6 +5,7 @@ import (
 
 	"github.com/crossplane/crossplane/verifsim/runner"
 
+	_ "github.com/crossplane/crossplane/verifsim/props/c01"
 	_ "github.com/crossplane/crossplane/verifsim/props/c12"
 )
 
